@@ -5,7 +5,7 @@ import linen_prog as LP
 import c01 as C1
 from common import cN, cZ, cnat, cbool, clist, copt, cpair
 
-PROOF_FILES = ['Proofs/Lift.v', 'Proofs/LinenChild.v']
+PROOF_FILES = ['Proofs/Lift.v', 'Proofs/LinenChild.v', 'Proofs/LiftCtl.v']
 ASSUMPTIONS = [
     'jax.jit / jax.checkpoint / lax.cond / lax.switch / lax.while_loop evaluate the traced function like Python evaluates it (integer arithmetic); idealised, not verified',
     'the plain equivalent of a program is computed by the harness (linen_prog.plain_equivalent): a transformed class becomes a class with the transformed class name, cond / switch the '
